@@ -11,8 +11,11 @@ fn main() {
     match args[1].as_str() {
         "check" => {
             let prop = args[2].as_str();
-            let tier = args.get(3).map(String::as_str).unwrap_or("quick");
-            let tier = std::env::var("VERIF_TIER").ok().filter(|t| t == "quick" || t == "thorough").unwrap_or(tier.to_string());
+            // the tier named on the command line wins; VERIF_TIER only fills in when none is given
+            let tier: String = match args.get(3).map(String::as_str) {
+                Some(t) if t == "quick" || t == "thorough" => t.to_string(),
+                _ => std::env::var("VERIF_TIER").ok().filter(|t| t == "quick" || t == "thorough").unwrap_or_else(|| "quick".to_string()),
+            };
             util::set_run_context(prop, &tier);
             let t0 = Instant::now();
             let res = std::panic::catch_unwind(|| props::run_property(prop, &tier));
